@@ -9,6 +9,8 @@ pub struct Scenario {
     /// All mailboxes have a single sender and no timeout races another source.
     pub confluent: bool,
     pub io: bool,
+    /// Host-computed expected entry result (canonical rendering), where the template fixes it.
+    pub expect: Option<String>,
 }
 
 pub fn sc(id: &str, family: &'static str, confluent: bool, source: &str) -> Scenario {
@@ -18,6 +20,7 @@ pub fn sc(id: &str, family: &'static str, confluent: bool, source: &str) -> Scen
         source: source.to_string(),
         confluent,
         io: false,
+        expect: None,
     }
 }
 
@@ -56,6 +59,7 @@ pub fn pipe(n: usize, k: usize) -> Scenario {
         source: s,
         confluent: true,
         io: false,
+        expect: None,
     }
 }
 
@@ -81,6 +85,7 @@ pub fn fanout(n: usize, order: &[usize]) -> Scenario {
         source: s,
         confluent: true,
         io: false,
+        expect: None,
     }
 }
 
@@ -109,6 +114,7 @@ pub fn fanout_race(n: usize, order: &[usize]) -> Scenario {
         source: s,
         confluent: false,
         io: false,
+        expect: None,
     }
 }
 
@@ -137,6 +143,7 @@ pub fn reqrep(k: usize) -> Scenario {
         source: s,
         confluent: true,
         io: false,
+        expect: None,
     }
 }
 
@@ -154,6 +161,7 @@ pub fn await_chain(n: usize) -> Scenario {
         source: s,
         confluent: true,
         io: false,
+        expect: None,
     }
 }
 
@@ -177,6 +185,7 @@ pub fn late_await(variant: usize) -> Scenario {
         source: src,
         confluent: true,
         io: false,
+        expect: None,
     }
 }
 
@@ -211,6 +220,7 @@ pub fn spawn_storm(n: usize) -> Scenario {
         source: s,
         confluent: true,
         io: false,
+        expect: None,
     }
 }
 
@@ -233,6 +243,7 @@ pub fn fanin(n: usize, k: usize) -> Scenario {
         source: s,
         confluent: false,
         io: false,
+        expect: None,
     }
 }
 
@@ -252,6 +263,7 @@ pub fn typed_mail(variant: usize) -> Scenario {
         source: src.to_string(),
         confluent: true,
         io: false,
+        expect: None,
     }
 }
 
@@ -329,10 +341,82 @@ pub fn messaging_all(thorough: bool) -> Vec<Scenario> {
 }
 
 pub const FAMILIES: &[&str] = &[
-    "pipe", "fanout", "fanout_race", "reqrep", "await_chain", "late_await", "spawn_storm", "fanin", "typed_mail",
+    "pipe", "fanout", "fanout_race", "reqrep", "await_chain", "late_await", "spawn_storm", "fanin", "typed_mail", "bin",
     "select_mix", "bin", "res", "fail", "refs",
 ];
 
 pub fn static_family(name: &str) -> &'static str {
     FAMILIES.iter().copied().find(|f| *f == name).unwrap_or("replay")
+}
+
+/// Binary-churn scenarios (C06): heap binaries created, shared, sliced, sent, filtered, captured,
+/// dropped in loops, awaited twice. `expect` is the host-computed entry result.
+pub fn bin_all() -> Vec<Scenario> {
+    let mk = |id: &str, confluent: bool, src: &str, expect: &str| Scenario {
+        id: format!("bin_{}", id),
+        family: "bin",
+        source: src.to_string(),
+        confluent,
+        io: false,
+        expect: Some(expect.to_string()),
+    };
+    vec![
+        mk("send", true,
+           "b = [0x0102, 0x0304] __binary_concat__,\nc = @{ !'bin =m, [m, m] __binary_concat__ },\nb c,\nr = !c,\n[b, r]",
+           "[0x01020304, 0x0102030401020304]"),
+        mk("capture", true,
+           "b = [0x0102, 0x0304] __binary_concat__,\nc = @{ [b, 0x05] __binary_concat__ },\nr = !c,\n[b, r]",
+           "[0x01020304, 0x0102030405]"),
+        mk("two_captures", true,
+           "a = [0x01, 0x02] __binary_concat__,\nb = [0x03, 0x04] __binary_concat__,\nc = @{ [a, b] },\nr = !c,\n[r, a, b]",
+           "[[0x0102, 0x0304], 0x0102, 0x0304]"),
+        mk("capture_and_arg", true,
+           "a = [0x01, 0x02] __binary_concat__,\nb = [0x03, 0x04] __binary_concat__,\nf = #'bin { [a, ~] },\nc = b @f,\n!c",
+           "[0x0102, 0x0304]"),
+        mk("arg", true,
+           "b = [0x0102, 0x0304] __binary_concat__,\nf = #'bin { [~, 0x06] __binary_concat__ },\nc = b @f,\nr = !c,\n[r, b]",
+           "[0x0102030406, 0x01020304]"),
+        mk("loop", true,
+           "f = #['int, 'bin] { =[0, acc] => acc | =[n, acc] => [[n, 1] __integer_subtract__, [acc, 0x01] __binary_concat__] ^ },\np = [3, 0x] @f,\n!p",
+           "0x010101"),
+        mk("await_twice", true,
+           "c = @{ [0x01, 0x02] __binary_concat__ },\na = !c,\nb = !c,\n[a, b]",
+           "[0x0102, 0x0102]"),
+        mk("await_twice_drop", true,
+           "c = @{ [0x01, 0x02] __binary_concat__ },\na = !c,\nb = !c,\n[a, b] __binary_concat__ __binary_length__",
+           "4"),
+        mk("await_thrice_drop", true,
+           "c = @{ [0x01, 0x02] __binary_concat__ =x, [x, x] },\n!c,\n!c,\n!c,\n7",
+           "7"),
+        mk("await_twice_tuple", true,
+           "c = @{ [0x01, 0x02] __binary_concat__ =x, A[x, x] },\na = !c,\nb = !c,\n[a, b]",
+           "[A[0x0102, 0x0102], A[0x0102, 0x0102]]"),
+        mk("mailbox_left", true,
+           "c = @{ !'bin =m, m },\n[0x01, 0x02] __binary_concat__ =x,\nx c,\n[x, 0x03] __binary_concat__ c,\nr = !c,\n[r, x]",
+           "[0x0102, 0x0102]"),
+        mk("tuple_share", true,
+           "x = [0x0a, 0x0b] __binary_concat__,\nc = @{ !#['bin, 'bin] =[p, q], [q, p] __binary_concat__ },\n[x, x] c,\nr = !c,\n[r, x]",
+           "[0x0a0b0a0b, 0x0a0b]"),
+        mk("slice", true,
+           "x = [0x0a0b0c, 0x0d0e] __binary_concat__,\nc = @{ !'bin =m, [m, 1, 3] __binary_slice__ },\nx c,\nr = !c,\n[r, x]",
+           "[0x0b0c, 0x0a0b0c0d0e]"),
+        mk("filter_skip", true,
+           "r = @{ ! [#'bin { =0xaa => Ok }] =a, !'bin =b, !'bin =c, [a, b, c] },\n[0xb0, 0x0b] __binary_concat__ r,\n0xcc r,\n0xaa r,\n!r",
+           "[0xaa, 0xb00b, 0xcc]"),
+        mk("filter_two", false,
+           "r = @{ ! [#'bin { =0xaa => Ok }, #'bin { =x => [x, x] __binary_concat__ }] =a, !'bin =b, [a, b] },\n0xbb r,\n0xaa r,\n!r",
+           "[0xaa, 0xbb] || [0xbb, 0xaa]"),
+        mk("filter_two_drop", false,
+           "r = @{ ! [#'bin { =0xaa => Ok }, #'bin { =x => [x, x] __binary_concat__ }] =a, !'bin =b, [b, b] __binary_concat__ __binary_length__ },\n0xbb r,\n0xaa r,\n!r",
+           "2"),
+        mk("filter_three_drop", false,
+           "r = @{ ! [#'bin { =0xaa => Ok }, #'bin { =x => [x, x] __binary_concat__ }] =a, !'bin =b, !'bin =c, [b, c] __binary_concat__ __binary_length__ },\n0xbb r,\n0xcc r,\n0xaa r,\n!r",
+           "2"),
+        mk("closure", true,
+           "x = [0x01, 0x02] __binary_concat__,\ng = #'bin { [x, ~] __binary_concat__ },\nc = @{ !#(#'bin -> 'bin) =h, 0x09 h },\n&g c,\nr = !c,\n[r, x]",
+           "[0x010209, 0x0102]"),
+        mk("drop_result", true,
+           "c = @{ [0x01, 0x02] __binary_concat__ },\nd = @{ [0x03, 0x04] __binary_concat__ },\n!c,\n!d",
+           "0x0304"),
+    ]
 }
